@@ -59,14 +59,14 @@ func fConsumerOffsets(r *rand.Rand, n int) {
 		}
 		of := &offsetfetch.Response{}
 		if r.Intn(8) == 0 {
-			of.ErrorCode = int16([]int{14, 30}[r.Intn(2)])
+			of.ErrorCode = int16([]int{14, 30, -1}[r.Intn(3)])
 		}
 		ot := offsetfetch.ResponseTopic{Name: "t"}
 		var enc []string
 		for _, p := range r.Perm(np) {
 			rp := offsetfetch.ResponsePartition{PartitionIndex: int32(p), CommittedOffset: int64(r.Intn(500))}
 			if r.Intn(3) == 0 { // several partitions of one answer may fail
-				rp.ErrorCode, rp.CommittedOffset = int16([]int{9, 14, 28}[r.Intn(3)]), -1
+				rp.ErrorCode, rp.CommittedOffset = int16([]int{9, 14, 28, -1}[r.Intn(4)]), -1
 			}
 			ot.Partitions = append(ot.Partitions, rp)
 			enc = append(enc, fmt.Sprintf("%d/%d/%d", rp.PartitionIndex, rp.CommittedOffset, rp.ErrorCode))
